@@ -11,7 +11,7 @@ using namespace FEAT;
 
 namespace c11
 {
-  void rt_q2(Tape&, Ctx&); void rt_h3(Tape&, Ctx&); void rt_s2(Tape&, Ctx&); void rt_s3(Tape&, Ctx&);
+  void rt_surf(Tape&, Ctx&); void rt_q2(Tape&, Ctx&); void rt_h3(Tape&, Ctx&); void rt_s2(Tape&, Ctx&); void rt_s3(Tape&, Ctx&);
   void fault_q2(Tape&, Ctx&); void fault_h3(Tape&, Ctx&); void fault_s2(Tape&, Ctx&); void fault_s3(Tape&, Ctx&);
   void init_files_main();
 }
@@ -212,6 +212,7 @@ int main(int argc, char** argv)
   tg.push_back({"rt_q2", c11::rt_q2, 384, 24, 60000});
   tg.push_back({"rt_h3", c11::rt_h3, 384, 24, 60000});
   tg.push_back({"rt_s2", c11::rt_s2, 384, 24, 60000});
+  tg.push_back({"rt_surf", c11::rt_surf, 48, 4, 30000});
   tg.push_back({"rt_s3", c11::rt_s3, 384, 24, 60000});
   tg.push_back({"fault_q2", c11::fault_q2, 384, 16, 60000});
   tg.push_back({"fault_h3", c11::fault_h3, 384, 16, 60000});
